@@ -755,6 +755,10 @@ package scipipe
 //@   deterministic structural
 // Replay only: a failing obligation is replayed on documented modifiers and a newline-free path, and the real result is
 // compared with the documented meaning (fold of modstep).
+// (inside the loop the replay starts from the value the path had at the head of the failing round and the one modifier of
+// that round)
+//@   replay input path = ident(prev(replacement))
+//@   replay input modifiers = singleton(modifier)
 //@   replay assume !contains(path, "\n") && len(modifiers) <= 3 && (len(modifiers) > 0 ==> docMod(modifiers[0])) && (len(modifiers) > 1 ==> docMod(modifiers[1])) && (len(modifiers) > 2 ==> docMod(modifiers[2]))
 //@   replaycheck applies-the-documented-modifiers-left-to-right[C15]: (forall j int :: 0 <= j && j < len(modifiers) ==> docMod(modifiers[j])) && !contains(path, "\n") ==> res == applyMods(path, modifiers)
 //@   assumes functional: res == applyMods(path, modifiers)
